@@ -26,7 +26,7 @@ import proggen          # noqa: E402
 import ast2coq          # noqa: E402
 
 RID = "R"
-REQUIRES = "Spec.PDP11 Spec.Arith Model.Asm Run.RRun"  # RRun pulls in Model.AsmT / Model.AsmRel
+REQUIRES = "Spec.PDP11 Spec.Arith Model.Asm Model.AsmT Run.RRun"  # RRun pulls in Model.AsmT / Model.AsmRel
 PRELUDE = "Open Scope string_scope.\nOpen Scope Z_scope."
 WHY = {1: "label-not-laid-out-yet", 2: "dot-of-a-later-definition", 3: "link-inside-repeat", 4: "base-set-inside-repeat",
        5: "end-inside-block", 6: "size-guard", 7: "other", 8: "own-base-in-include", 9: "include-inside-repeat",
@@ -115,6 +115,35 @@ def special_cases():
     return S
 
 
+def gen_linked(rng, n):
+    """2-3 files given to the linker, with exported names used across files"""
+    P = proggen.Profile
+    profs = [P(n_files=(2, 3), link="maybe", n_stmts=(3, 14)), P(n_files=(2, 2), link="never", n_stmts=(4, 20)),
+             P(n_files=(3, 3), link="maybe", n_stmts=(3, 10), include=False)]
+    out = []
+    for i in range(n):
+        p = proggen.gen_program(rng, profs[i % len(profs)])
+        out.append(("linked", p.files, p.fs))
+    return out
+
+
+def linked_specials():
+    S = []
+
+    def one(files, fs=None):
+        S.append(("linked-special", files, fs or {}))
+    one([("a.mac", "start: mov #x, r0\n.word y, k\nk = 3\n"), ("b.mac", "x:: .word start0\nstart0 = 7\ny == 5\n1: br 1\n")])
+    one([("a.mac", "x: nop\n.word x\n.end\njunk junk\n"), ("b.mac", "x: .word x\n.extern all\n"), ("c.mac", ".word x\n")])
+    one([("a.mac", "nop\n"), ("b.mac", ".link 3000\nl:: .word l\n")])                    # the second file fixes the shared base
+    one([("a.mac", ".link 2000\nnop\n"), ("b.mac", ". = . + 4\nl: .word l\n")])           # a skip in the second file
+    one([("a.mac", ".link 2000\nnop\n"), ("b.mac", ".link 3000\nnop\n")])               # second .link: error
+    one([("a.mac", "a:: nop\n"), ("b.mac", "a:: nop\n")])                                 # duplicate export
+    one([("a.mac", ".word p\n"), ("b.mac", "p: nop\n")])                                  # private name: undefined
+    one([("a.mac", "1: nop\n"), ("b.mac", "br 1\n1: nop\n")])                             # local scopes per file
+    one([("a.mac", '.include "i.mac"\n.word q\n'), ("b.mac", '.include "i.mac"\n.word q\n')], {"i.mac": "q = 4\n.extern q\n"})
+    return S
+
+
 def gen_cases(rng, n):
     profs = profiles()
     out = []
@@ -189,7 +218,7 @@ def interpret(rep, origin, files, fs, o, code, prefix=""):
 def explore_generated(rep, tier, seed):
     rng = random.Random(seed ^ 0x52)
     n = 240 if tier == "quick" else 4000
-    cases = special_cases() + gen_cases(rng, n)
+    cases = special_cases() + gen_cases(rng, n) + linked_specials() + gen_linked(rng, n // 3)
     outs = impl.pmap("assemble", [((files,), {"fs": fs}) for _, files, fs in cases])
     terms, refs = [], []
     for ci, ((origin, files, fs), o) in enumerate(zip(cases, outs)):
@@ -201,7 +230,7 @@ def explore_generated(rep, tier, seed):
         if o["outcome"] in ("crash", "hang"):
             rep.count("R:skipped-impl-" + o["outcome"])
             continue
-        conv = ast2coq.convert(files[0][0], files[0][1], fs=fs)
+        conv = ast2coq.convert_files(files, fs=fs)
         if conv.term is None:
             rep.count("R:outside-subset")
             for k, v in conv.unsupported.items():
@@ -373,7 +402,7 @@ def explore_laws(rep, tier, seed):
         refs.append(k)
     codes = []
     if terms:
-        res = C.run_case_files(RID + "law", REQUIRES + " Model.AsmT", PRELUDE, C.shard(terms, 20), judge_expr="map judge_law cases",
+        res = C.run_case_files(RID + "law", REQUIRES, PRELUDE, C.shard(terms, 20), judge_expr="map judge_law cases",
                                cases_type="list law_case", timeout=1200)
         codes = [c for sh in res for c in sh]
     judged = collections.Counter()
